@@ -8,6 +8,7 @@ from . import inject
 
 GV_LINE = re.compile(r"^\s*//\s*@gv\s+(.*)$")
 FN_LINE = re.compile(r"^\s*(?:pub(?:\([^)]*\))?\s+)?fn\s+([A-Za-z0-9_]+)\s*\(")
+MACRO_LINE = re.compile(r"^\s*[a-z_]+_harness!\(\s*([A-Za-z0-9_]+)\s*,")
 UNWIND = re.compile(r"#\[kani::unwind\((\d+)\)\]")
 STUB = re.compile(r"#\[kani::stub\(([^,]+),\s*([^)]+)\)\]")
 
@@ -26,7 +27,7 @@ class Harness:
         self.timeout = int(attrs.get("timeout", "600"))
         self.mem_gb = float(attrs.get("mem", "8"))
         self.finding = attrs.get("finding", "")
-        self.unwind = unwind
+        self.unwind = unwind if unwind is not None else (int(attrs["unwind"]) if "unwind" in attrs else None)
         self.stubs = stubs
         self.pkg = module["pkg"]
         self.features = module.get("features", "")
@@ -72,7 +73,7 @@ def load():
             s = STUB.search(ln)
             if s:
                 stubs.append("%s -> %s" % (s.group(1).strip(), s.group(2).strip()))
-            f = FN_LINE.match(ln)
+            f = FN_LINE.match(ln) or MACRO_LINE.match(ln)
             if f:
                 out.append(Harness(f.group(1), mod, attrs, unwind, stubs))
                 attrs, unwind, stubs, pending = {}, None, [], False
